@@ -3,7 +3,7 @@
 import json, os, re
 V = os.path.dirname(os.path.dirname(os.path.abspath(__file__)))
 rows = []
-for d in sorted(os.listdir(os.path.join(V, "seeded"))):
+for d in sorted(x for x in os.listdir(os.path.join(V, "seeded")) if os.path.isdir(os.path.join(V, "seeded", x))):
     m = json.load(open(os.path.join(V, "seeded", d, "meta.json")))
     res = "; ".join(f"{k}: {v}" for k, v in m["checks_run_against_it"].items())
     rows.append(f"| {d} | {(m.get('summary') or '').replace('|','/')} | {(m.get('needs') or '').replace('|','/')} | {res.replace('|','/')} |")
